@@ -15,7 +15,7 @@
 (* open on purpose.                                                         *)
 (*                                                                          *)
 (* TLC enumerates (action, position, lexeme), pairs of them for depth 2     *)
-(* (a seeded sample: PairStride), checks the sanity invariants below and    *)
+(* (a seeded sample: PairBudget), checks the sanity invariants below and    *)
 (* emits every case as JSON; tools/checks/c09.py applies the edits          *)
 (* (transliteration) and runs the real sbeppc.                              *)
 (*                                                                          *)
@@ -31,7 +31,7 @@ CONSTANTS Doc,         \* <<[tag, lt, parent, attrs: <<[n, v]>>, text]>> in docu
           LexPer,      \* number lexemes tried per (position, attribute) (0 = all), rotating through the pool
           NamePer,     \* names tried per named position (0 = all), rotating
           Seed,        \* rotation / sampling seed
-          PairStride,  \* depth 2: about 1 of PairStride ordered pairs is generated (0 = none)
+          PairBudget,  \* depth 2: about this many ordered pairs are generated (a seeded sample; 0 = none)
           TruncStep,   \* truncation at every TruncStep-th token boundary (1 = every boundary)
           MaxDepth
 
@@ -610,14 +610,20 @@ Compatible(a, b) ==
   /\ ~(Len(a.argv) > 0 /\ Len(b.argv) > 0)
   /\ ~(Len(a.files) > 0 /\ Len(b.files) > 0)
 
-Sampled(i, j) == PairStride > 0 /\ ((i * 7919 + j * 104729 + Seed * 31) % PairStride) = 0
+\* the sample: for the i-th action every Stride-th action, starting at an offset that depends on i and Seed
+\* (T * T stays below 2^31 for T < 46000)
+Stride(T) == IF PairBudget = 0 THEN 0 ELSE IF T * T <= PairBudget THEN 1 ELSE (T * T) \div PairBudget
+Partners(i, T) == IF PairBudget = 0 \/ T = 0 THEN {}
+                  ELSE LET st == Stride(T)
+                           off == (i * 7919 + Seed * 31) % st
+                       IN {off + 1 + m * st : m \in 0 .. (T \div st)} \cap (1 .. T)
 
 Next ==
   \/ /\ picked = <<>>
      /\ \E i \in 1 .. Len(tab) : picked' = <<i>>
      /\ UNCHANGED tab
   \/ /\ Len(picked) = 1 /\ MaxDepth >= 2
-     /\ \E j \in {x \in 1 .. Len(tab) : Sampled(picked[1], x)} :
+     /\ \E j \in Partners(picked[1], Len(tab)) :
           /\ j # picked[1]
           /\ Compatible(tab[picked[1]], tab[j])
           /\ picked' = <<picked[1], j>>
